@@ -43,7 +43,10 @@ def make_frame(H: int, W: int, fid: int) -> np.ndarray:
 class Scene:
     """Ground truth table: frame id -> animals.
     animals: list of dicts {"kps": [(x, y) | None, ...], "cent": (x, y)} with
-    Fraction (or float) coordinates in ORIGINAL image pixels."""
+    Fraction (or float) coordinates in ORIGINAL image pixels.
+    Optional key "unlabelled": True (default absent = False): the animal is DRAWN by the stub networks
+    (its centroid / keypoints are part of the scene the network sees) but it has NO instance in the labels
+    file built by `make_sources` (a detection that was never labelled)."""
 
     def __init__(self, n_nodes: int, edges=None):
         self.n_nodes = n_nodes
@@ -65,6 +68,12 @@ class Scene:
     def cents_array(self, fid):
         a = self.frames[fid]["animals"]
         return np.array([[float(an["cent"][0]), float(an["cent"][1])] for an in a], dtype=np.float64).reshape(-1, 2)
+
+    def labelled_kps_array(self, fid):
+        """kps_array restricted to the animals that have an instance in the labels file (all of them unless
+        an animal carries "unlabelled": True), in scene order."""
+        keep = [i for i, an in enumerate(self.frames[fid]["animals"]) if not an.get("unlabelled")]
+        return self.kps_array(fid)[np.asarray(keep, dtype=np.int64)]
 
 
 # ------------------------------------------------------------------ fake sleap-io objects
@@ -403,7 +412,7 @@ def make_sources(scene: Scene, fids: list[int], n_videos: int = 1, vid_of: list[
     lfs = []
     for k, f in enumerate(fids):
         v, idx = where[k]
-        kps = scene.kps_array(f)
+        kps = scene.labelled_kps_array(f)      # == kps_array(f) unless an animal is marked "unlabelled"
         insts = [FakeInstance(a) for a in kps] or [FakeInstance(np.full((scene.n_nodes, 2), np.nan))]
         lfs.append(FakeLF(vids[v], idx, insts))
     return video, FakeLabels(vids, lfs), where
